@@ -201,7 +201,16 @@ func (its *document) Transaction(tag string, userFunc func(document DocumentInTx
 }
 
 func (its *document) snapshot() jsonType {
-	return its.GetSnapshot().(jsonType)
+	snap := its.GetSnapshot().(jsonType)
+	// a rollback or an applied snapshot rebuilds the tree below the root: a handle taken before that follows its node
+	// by identity, otherwise it would keep reading and modifying the abandoned tree.
+	if root := snap.getRoot(); root != nil && root.getCommon() != snap.getCommon() {
+		if cur, ok := root.findJSONType(snap.getCreateTime()); ok {
+			its.Snapshot = cur
+			return cur
+		}
+	}
+	return snap
 }
 
 func (its *document) ResetSnapshot() {
